@@ -339,6 +339,14 @@ class C41(core.Check):
             ]},
             {'k': 'batch', 'cp': 'default', 'ops': [{'op': 'row', 'pre': [], 'subst': False}, {'op': 'size'}]},
         ] + [
+            # sibling clusters sharing a base letter (a+grave / a+acute), cluster followed by its base letter,
+            # base letter followed by a foreign accent (C41_split_unicode_greedy)
+            {'k': 'batch', 'cp': name, 'ops': [
+                {'op': 'u2b', 'mode': m, 'u': [0x430, 0x300, 0x430, 0x301, 0x430, 0x44D, 0x301, 0x44D, 0x300,
+                                               0x430, 0x308, 0x41, 0x300, 0, 0x430, 0x300]}
+                for m in MODES]}
+            for name in ('russup3', 'russup4ac', 'russup4na')
+        ] + [
             # seeded C41d: a converter cached inside the Codepage object keeps _bset/_last across calls:
             # a box line first, then a pair led by the box byte, on the SAME Codepage object
             {'k': 'batch', 'cp': name, 'ops': [B(run), B(pair), {'op': 'reset'},
